@@ -102,7 +102,7 @@ def run(chk):
     # DTLS 1.3 with a server flight of several datagrams: selective acknowledgement / retransmission (spec/Handshake13F.tla)
     hsreplay13f.model_check(chk)
     hsreplay13f.vacuity(chk)
-    s13f = hsreplay13f.generate(chk, limit=12000 if chk.quick else 150000)
+    s13f = hsreplay13f.generate(chk, limit=12000 if chk.quick else 60000)
     rows, summ = hsreplay13f.replay(chk, binary, s13f)
     nlaw = 0
     for r in rows:
